@@ -681,6 +681,7 @@ LangOf(kind) ==
     [] kind \in {"ts_str", "ts_tmpl"} -> "ts"
     [] kind = "go_str" -> "go"
 \* the units the language's lexer sees for a source text given as code points
+SourceUnitsOfLang(L, text) == IF L \in {"java", "cs", "ts"} THEN Utf16Seq(text) ELSE text
 SourceUnits(kind, text) == IF LangOf(kind) \in {"java", "cs", "ts"} THEN Utf16Seq(text) ELSE text
 \* what the literal has to denote for the original value (a sequence of code points / of bytes)
 Expected(kind, orig) ==
